@@ -263,6 +263,8 @@ pub struct ExecResult {
 pub fn exec_plan(check: &dyn Check, plan: &Value, scratch: &Path) -> ExecResult {
     let exe = std::env::current_exe().expect("current_exe");
     let path = scratch.join(format!("plan-{}.json", std::process::id()));
+    // (the scratch directory lives under the system temp dir: recreate it if a cleaner removed it)
+    let _ = std::fs::create_dir_all(scratch);
     std::fs::write(&path, serde_json::to_vec(plan).unwrap()).expect("write plan");
     let mut child = Command::new(exe)
         .arg("exec")
